@@ -65,7 +65,8 @@ fn check_protocol_bytes() {
 }
 
 /// shape bits: 1 = client id, 2 = username + password, 4 = will (topic + payload + delay interval), 8 = numeric properties A
-/// (session expiry, receive maximum, maximum packet size), 16 = numeric properties B (alias maximum, request response / problem information), 32 = one user property
+/// (session expiry, receive maximum, maximum packet size), 16 = numeric properties B (alias maximum, request response / problem information), 32 = one user property,
+/// 64 = the will also carries a 120-byte response topic and 8 bytes of correlation data (will property section of 134 bytes: two-byte VBI)
 fn connect_body(v5: bool, shape: u8, cap: usize) {
     check_protocol_bytes();
     let ka: u16 = kani::any();
@@ -74,7 +75,11 @@ fn connect_body(v5: bool, shape: u8, cap: usize) {
     let wq: u8 = kani::any(); kani::assume(wq < 3);
     let wr: bool = kani::any();
     let (has_id, has_up, has_will, pa, pb, has_prop) = (shape & 1 != 0, shape & 2 != 0, shape & 4 != 0, shape & 8 != 0, shape & 16 != 0, shape & 32 != 0);
-    let will = PublishPacket { topic: "w/t".to_string(), qos: qos_of(wq), retain: wr, payload: Some(vec![9u8; 2]), ..Default::default() };
+    let big_will = shape & 64 != 0;
+    let will = PublishPacket { topic: "w/t".to_string(), qos: qos_of(wq), retain: wr, payload: Some(vec![9u8; 2]),
+        response_topic: if big_will { Some(unsafe { String::from_utf8_unchecked(vec![b'r'; 120]) }) } else { None },
+        correlation_data: if big_will { Some(vec![3u8; 8]) } else { None },
+        ..Default::default() };
     let inner = ConnectPacket {
         keep_alive_interval_seconds: ka, clean_start: clean,
         client_id: if has_id { Some("cid".to_string()) } else { None },
@@ -118,6 +123,7 @@ fn connect_body(v5: bool, shape: u8, cap: usize) {
             let wl = w.hole();
             let start = w.n;
             w.u8(24); w.u32(wdi);
+            if big_will { w.u8(8); w.lp(F_WILL_RT, 0, 120); w.u8(9); w.lp(F_WILL_CD, 0, 8); }
             let mut t = 0; let mut i = start; while i < w.n { t += w.it[i].size; i += 1; }
             w.fill(wl, t);
         }
@@ -171,3 +177,11 @@ fn c02_connect5_will() { connect_body(true, 1 | 4, 16) }
 #[kani::unwind(18)]
 #[kani::stub(std::fmt::format, stub_format)]
 fn c02_connect311_full() { connect_body(false, 1 | 2 | 4 | 8 | 16 | 32, 16) }
+
+// @gv props=C02,C07 tier=quick required=yes fns=write_connect_encoding_steps5,compute_connect_packet_length_properties5
+// @gv bounds="CONNECT/MQTT5 with client id and a will whose property section (delay interval, 120-byte response topic, 8 bytes of correlation data = 134 bytes) crosses the one-byte Variable Byte Integer boundary"
+// @gv timeout=1200 mem=14
+#[kani::proof]
+#[kani::unwind(24)]
+#[kani::stub(std::fmt::format, stub_format)]
+fn c02_connect5_will_vbi_boundary() { connect_body(true, 1 | 4 | 64, 32) }
